@@ -1523,7 +1523,9 @@ class BaseImage(metaclass=ImageMeta):
                 if pixel_data:
                     a = list(img.getdata(3))
                     if round_alpha:
-                        alpha = round(alpha * 255)
+                        # Not rounded: a pixel is transparent if and only if its alpha
+                        # ratio is below the threshold
+                        alpha = alpha * 255
                         a = [0 if val < alpha else 255 for val in a]
                 if round_alpha:
                     bg = Image.new(
